@@ -39,7 +39,7 @@ func vhIndex(name string) int {
 func c04(args []string) int {
 	run := NewRun("C04", args)
 	g := &rtGen{r: run.R}
-	run.Sum.Rule = "configurations: 1-8 virtual hosts, 0-3 domains each drawn without repetition (95%) from an overlapping pool (exact / mixed case / *.suffix / *suffix / :port / :* / default / IPv6 literal), 2% odd or rejected domains, 3% unrestricted draws (duplicates), 0-6 routes per host mixing prefix / path / regex (+header, method, regex-header matchers), variable (and/or), DSL and RPC rules, 25% of the virtual hosts with 2-6 routes that are ALL of the fast-index shape (one exact header on a prefix / path / RPC rule, `service` fast match incl. `.*`, keys and values from a pool of 4 x 5 so that routes share keys and several match), 4% of configurations with an unbuildable route; per configuration a battery of requests (Host from a pool with/without port, mixed case, malformed, empty, unset; path; method; 0-3 headers; variables). plus requests aimed at each such virtual host carrying the header matchers of several of its routes; every lookup is repeated 8 times (map order). Each request is looked up with the real MatchRoute, MatchAllRoutes and MatchRouteFromHeaderKV (for its own headers) and on a probe table (same domains, one catch-all route per host) that shows which virtual host was selected. A lookup is non-trivial when the configuration was accepted and has >= 2 virtual hosts; distinct by (configuration number, request)."
+	run.Sum.Rule = "configurations: 1-8 virtual hosts, 0-3 domains each drawn without repetition (95%) from an overlapping pool (exact / mixed case / *.suffix / *suffix / :port / :* / default / IPv6 literal), 2% odd or rejected domains, 3% unrestricted draws (duplicates), 10% of the configurations with one domain repeated at non-adjacent positions (exact / wildcard / default, other case, 1-3 same-kind same-port same-length distractors between, same name with another port), 0-6 routes per host mixing prefix / path / regex (+header, method, regex-header matchers), variable (and/or), DSL and RPC rules, 25% of the virtual hosts with 2-6 routes that are ALL of the fast-index shape (one exact header on a prefix / path / RPC rule, `service` fast match incl. `.*`, keys and values from a pool of 4 x 5 so that routes share keys and several match), 4% of configurations with an unbuildable route; per configuration a battery of requests (Host from a pool with/without port, mixed case, malformed, empty, unset; path; method; 0-3 headers; variables). plus requests aimed at each such virtual host carrying the header matchers of several of its routes; every lookup is repeated 8 times (map order). Each request is looked up with the real MatchRoute, MatchAllRoutes and MatchRouteFromHeaderKV (for its own headers) and on a probe table (same domains, one catch-all route per host) that shows which virtual host was selected. A lookup is non-trivial when the configuration was accepted and has >= 2 virtual hosts; distinct by (configuration number, request)."
 	ncfg := run.N(260, 2600)
 	nreq := run.N(14, 24)
 	sh := run.NewShard(rtShardHeader, "rt_case", "rt_mismatches")
@@ -49,6 +49,19 @@ func c04(args []string) int {
 		real, err := router.NewRouters(c.v2config("c04", false))
 		code := errClass(err)
 		run.Sum.Distribution[fmt.Sprintf("build-class=%d", code)]++
+		// ---- finder: acceptance.  Two domains that are equal after normalisation (lower case, host / port split, "*" = "*:*")
+		// would make one virtual host shadow the other: such a configuration must be rejected; and a configuration must not
+		// be rejected as "duplicate" when all its normalised domains are distinct
+		if d1, d2, _ := c.repeatedDomain(); d1 != "" {
+			run.Sum.Distribution["config-with-repeated-domain"]++
+			if err == nil {
+				run.Fail("c04:vhost:duplicate-domain-accepted", fmt.Sprintf("domains %q and %q are the same after normalisation, NewRouters accepted the configuration (one virtual host shadows the other)", d1, d2),
+					map[string]interface{}{"config": c, "domains": domainsOf(c)})
+			}
+		} else if code == 4 || code == 5 {
+			run.Fail("c04:vhost:distinct-domains-rejected-as-duplicate", fmt.Sprintf("all domains are distinct after normalisation, NewRouters refused the configuration: %v", err),
+				map[string]interface{}{"config": c, "domains": domainsOf(c)})
+		}
 		var obs []string
 		var descr []interface{}
 		if err == nil {
